@@ -396,7 +396,7 @@ Facts(n, r, err) ==
                 \/ \E w \in mw[n].wrote : \/ (w.i = T.e /\ w # T.cp)
                                           \/ (InRange(w.i, T.s, T.e) /\ w # T.ents[w.i - T.s + 1])
       skok == \A p \in 1..Len(r.dr) : \A i \in r.dr[p][1]..(r.dr[p][2] - 1) :
-                 \/ InRange(i, r.s, r.e)
+                 \/ i >= r.s            \* in this report's range, or beyond it (the dropped checkpoint was truncated away)
                  \/ (r.sk # <<>> /\ InRange(i, r.sk[1], r.sk[2]))
   IN [s |-> r.s, e |-> r.e, err |-> err, sk |-> r.sk, ndr |-> Len(r.dr),
       eq |-> eq, lacks |-> ~held, div |-> div, wother |-> wother, skok |-> skok]
